@@ -466,7 +466,8 @@ static std::string handle(const std::vector<std::string>& a) {
       char* buf = new char[n + extra ? n + extra : 1];
       size_t w = ser_buf(fmt, doc.as<JsonVariantConst>(), buf, n + extra);
       JsonDocument back;
-      DeserializationError e = fmt == 2 ? deserializeMsgPack(back, (const char*)buf, n) : deserializeJson(back, (const char*)buf, n);
+      auto deep = DeserializationOption::NestingLimit(60);   // the documents of this case may be nested deeper than the default limit
+      DeserializationError e = fmt == 2 ? deserializeMsgPack(back, (const char*)buf, n, deep) : deserializeJson(back, (const char*)buf, n, deep);
       r += std::string(codeName(e)) + " " + std::to_string(w) + "/" + std::to_string(n) + " " + dump(back.as<JsonVariantConst>()) + " ";
       delete[] buf;
     }
